@@ -249,6 +249,13 @@ pub fn check(c: &Case, obs: &mut Obs) -> Verdict {
                     if msg.contains("S122") && !held.is_pos() {
                         obs.class("pair_refused_nothing_held");
                         Verdict::Pass
+                    } else if msg.contains("S122") && has_f11_gap(base) {
+                        // the base ledger already holds an over-large return the tool accepted (F11)
+                        f11()
+                    } else if msg.contains("S122") && prepass(base, &tk).1 {
+                        // an earlier return of the base ledger, apportioned per share, left a lot with
+                        // negative adjusted cost (root cause of F12); the tool's basis is then negative
+                        f12()
                     } else {
                         Verdict::fail(format!("cancelling pair refused (held before: {held}): {msg}\n{}", crate::led::to_dsl(&l2)))
                     }
